@@ -9,9 +9,9 @@ COQ_CORR = 'corr_C19'
 N_QUICK = 2500
 N_THOROUGH = 12000
 THOROUGH_EXHAUSTIVE = False
-VM_CASES = 34          # the first cases are also evaluated inside Coq (vm_compute); the corpus minus its last entry
+VM_CASES = 39          # the first cases are also evaluated inside Coq (vm_compute); the corpus minus its last entry
 RULE = ('cases = corpus + random rules printed from abstract token lists (literal chunks incl. digits, "-", ".", '
-        'non-ASCII; plain wildcards in the three flavours :n <n> {n}; int/float/re/path filters in bottle and dotted '
+        'non-ASCII; values containing CR (the wildcard marker), LF, NUL, TAB; plain wildcards in the three flavours :n <n> {n}; int/float/re/path filters in bottle and dotted '
         'flavour, named and anonymous; adjacent wildcards, adjacent literals, leading/trailing literals) x paths that '
         'instantiate the rule (then mutated) -> single-rule RadiRouter.resolve, Route.url(*anon, **kw) with the matched '
         'values, resolve again; plus a malformed stream calling Route.url with missing/extra/wrongly typed arguments. '
@@ -31,7 +31,7 @@ TRUSTED = [
     'rex filters (group selectors) are outside the property',
 ]
 ASSUMPTIONS = ['literal text of a rule contains no CR', 'wildcard names of a rule are distinct',
-               'paths contain no CR (C01/F1)', 'no rex selector filters']
+               'no rex selector filters']
 
 TAG_S, TAG_I, TAG_F = 0, 1, 2
 
@@ -114,6 +114,12 @@ def corpus():
         mk([L('a'), W('x', 'int', fl='d{'), L('-'), W('y', 'int', fl='d<')], '/a-0--0'),
         mk([W('x', 'int')], '/١٢'),                       # non-ASCII digits: oracle only
         mk([L('é/'), W('x'), L('\U0001f600')], '/é/中\U0001f600'),
+        # ---- values that contain the wildcard marker CR / control characters, more wildcards following
+        # (a builder that re-scans already substituted text fills the next value into the previous one)
+        mk([W('a'), L('/'), W('b')], '/x\ry/z'),
+        mk([W('a'), L('/'), W('b', fl='{'), L('/'), W('c', 'int')], '/\r/\r\r/7'),
+        mk([L('p/'), W('a', 'path'), L('/e/'), W('b'), L('.'), W(None, 're', '[^/]+')], '/p/q\rr/e/\n.\r'),
+        mk([W('a'), L('-'), W(None, 'int')], None, [['i', 5]], {'a': ['s', 'x\ry']}),
         # ---- explicit arguments (malformed stream)
         mk([L('a/'), W('x'), L('/b')], None, [], {}),                               # KeyError
         mk([L('a/'), W(None, 'int')], None, [], {}),                                # IndexError
@@ -134,13 +140,14 @@ def corpus():
 LITS = ['a', 'ab', 'abc', 'b', 'e', 'x-y', '0', '7', '-', '.5', 'a.b', '.txt', 'z', 'é', '10']
 SEPS = ['/', '/', '/', '', '-', '.']
 RE_ARGS = ['[a-z]+', 'a*', '[^/]+', r'\d{2}', 'ab|a', '[a-z]*']
-PLAIN_VALS = ['v', 'abc', '', '12', 'a.b', 'é', '-0', 'x y', '0', 'a-b']
+# values may contain the wildcard marker itself (%0D in a request path is plain text since fix F1) and other controls
+PLAIN_VALS = ['v', 'abc', '', '12', 'a.b', 'é', '-0', 'x y', '0', 'a-b', 'x\ry', '\r', '\r\r', 'a\nb', '\x00', '\t7']
 INT_VALS = ['0', '7', '-7', '007', '-0', '42', '12345678901234567890', '-00', '10']
 FLOAT_VALS = ['1.5', '0.00001', '3', '-0', '-2.50', '12345678901234567890', '0.1', '10.0', '1.0', '123456.789',
               '0.0001', '100000000000000000', '-0.0']
-RE_VALS = {'[a-z]+': ['a', 'abc', 'zz', ''], 'a*': ['', 'a', 'aaa'], '[^/]+': ['a', 'a-b.c', '12'],
+RE_VALS = {'[a-z]+': ['a', 'abc', 'zz', ''], 'a*': ['', 'a', 'aaa'], '[^/]+': ['a', 'a-b.c', '12', 'x\ry', '\r'],
            r'\d{2}': ['12', '00', '123'], 'ab|a': ['ab', 'a'], '[a-z]*': ['', 'q', 'abc']}
-PATH_VALS = ['a', 'a/b', 'a/b/c.txt', 'e/e', 'x.y/z']
+PATH_VALS = ['a', 'a/b', 'a/b/c.txt', 'e/e', 'x.y/z', 'q\rr/s', '\r/\r']
 
 
 def gen_toks(rng):
@@ -206,7 +213,7 @@ def mutate(rng, p):
     if r < 0.3:
         return p[:i] + p[i + 1:]
     if r < 0.6:
-        return p[:i] + rng.choice(['/', '0', '-', 'a', '.', '٣']) + p[i:]
+        return p[:i] + rng.choice(['/', '0', '-', 'a', '.', '٣', '\r', '\n']) + p[i:]
     if r < 0.8:
         return p + rng.choice(['/', '/x', '0', 'a'])
     return p[:i]
@@ -215,7 +222,7 @@ def mutate(rng, p):
 def rand_pyval(rng):
     r = rng.random()
     if r < 0.5:
-        return ['s', rng.choice(PLAIN_VALS + INT_VALS + ['abc', '+5', '1_0', ' 7', '٣'])]
+        return ['s', rng.choice(PLAIN_VALS + INT_VALS + ['abc', '+5', '1_0', ' 7', '٣', 'p\rq'])]
     if r < 0.8:
         return ['i', rng.choice([0, 7, -7, 12345678901234567890, -1, 10])]
     return ['f', rng.choice(['1.5', '1e-05', 'inf', '-0.0', '3.0'])]
@@ -272,7 +279,7 @@ def thorough():
     pool = [L('a'), L('/'), L('-'), L('0'),
             W('x'), W('y', fl='{'), W('n', 'int'), W('m', 'int', fl='d{'), W(None, 'int', fl='d<'),
             W('r', 're', 'a*', 'd<'), W('p', 'path'), W('f', 'float')]
-    vals = {None: ['', 'v', '0'], 'int': ['0', '-0', '12', '-3'], 're': ['', 'aa'], 'path': ['q', 'q/r'],
+    vals = {None: ['', 'v', '0', '\r'], 'int': ['0', '-0', '12', '-3'], 're': ['', 'aa'], 'path': ['q', 'q/r'],
             'float': ['1.5', '-0', '0.00001']}
     for ln in (1, 2, 3):
         for toks in itertools.product(pool, repeat=ln):
@@ -404,8 +411,8 @@ def _has_kind(case, k):
 
 def _modelled(case):
     """inputs the Gallina model covers (the rest is checked by the oracle on the implementation only)"""
-    if '\r' in case['rule'] or (case.get('path') and '\r' in case['path']):
-        return False
+    if '\r' in case['rule']:
+        return False               # literal text with a CR is outside the property (lits_ok)
     if _has_kind(case, 'int'):
         texts = [case.get('path') or '']
         texts += [t[1] for t in case.get('args', []) if t[0] == 's']
